@@ -1,4 +1,8 @@
+#[cfg(not(feature = "verif-hooks"))]
 use std::collections::HashSet;
+#[cfg(feature = "verif-hooks")]
+#[allow(unused_imports)]
+use crate::verif_hooks::{HashSet, SimNew};
 use std::hash::{Hash, Hasher};
 use std::ops::Deref;
 use std::rc::Rc;
